@@ -11,7 +11,6 @@ NOT_APPLICABLE = {
     'C05': 'check not built yet in this round (planned, see DESIGN.md section 5)',
     'C06': 'check not built yet in this round (planned, see DESIGN.md section 5)',
     'C07': 'check not built yet in this round (planned, see DESIGN.md section 5)',
-    'C08': 'check not built yet in this round (planned, see DESIGN.md section 5)',
     'C09': 'check not built yet in this round (planned, see DESIGN.md section 5)',
     'C10': 'check not built yet in this round (planned, see DESIGN.md section 5)',
     'C11': 'check not built yet in this round (planned, see DESIGN.md section 5)',
@@ -64,4 +63,20 @@ PROPS['C16'] = dict(
                       'wrap_random_ranges/*near-int-max': 50, 'wrap_random_ranges/huge*': 50, 'octa_sampled_cases/q=30': 10},
     exhaustive_counter=None,
     assumptions=['int32 arithmetic of the target (x86-64, two\'s complement)'],
+)
+
+PROPS['C08'] = dict(
+    title='Symbol entropy coding is lossless and self-delimiting',
+    technique='runtime monitoring: round-trip identity + sentinel-position oracle over generated symbol arrays, ASan/UBSan',
+    level='exploration',
+    level_text=('EncodeSymbols/DecodeSymbols of the tree under test are run on generated arrays (10 distribution families incl. single outliers up to 2^32-1, '
+                '2^18+-1 distinct symbols, equal-count tables that make the probability normalisation over/undershoot), 1..6 components, all compression '
+                'levels, forced tagged/raw; the monitor demands array equality, the sentinel right after the block, and a justified reason for every encoder refusal.'),
+    level_note='Sampled, not exhaustive. Forced raw scheme is only driven with values < 2^20 (its table is O(max value) by design). Trusts ASan/UBSan for memory/UB.',
+    rule=('one case = one symbol array (distribution, length 1..4000 quick / 1e5 thorough, components, level, forced method drawn from the case PRNG) encoded after a prefix byte, '
+          'followed by a 4-byte sentinel, decoded from an exact-size heap copy. Non-trivial = encoder accepted and >= 1 symbol; distinct = hash of the produced block.'),
+    runs=[dict(variant='asan', harness='c08_symbols', cases=dict(quick=12000, thorough=400000))],
+    min_nontrivial=3000,
+    require_counters={'scheme/tagged': 500, 'scheme/raw': 500, 'class/outlier/*': 50, 'class/equal_counts/*': 100, 'encoder_refused/*': 1},
+    assumptions=['caller contract: num_values is a multiple of num_components'],
 )
